@@ -77,10 +77,20 @@ def run(ctx, model_ok):
         if val < 0:
             continue
         cases.append({"text": f"{lit(a, sa, rng)} {op} {lit(b, sb, rng)}", "n": float(val), "tgt": sa, "kind": "arith"})
+    # a fractional value whose base tag comes from arithmetic on a based literal, held in a variable, then converted
+    import math as _m
+    for _ in range(ctx.n(150, 3000)):
+        a, b = rng.randint(1, 2**24), rng.choice([3, 7, 9, 11, 6, 13])
+        sa = rng.choice(["hex", "octal", "binary"])
+        tgt = rng.choice(list(BASES))
+        v = a / b
+        want = float(_m.floor(v + 0.5))
+        conn = rng.choice(["to ", "", "as "])
+        cases.append({"text": f"x = {lit(a, sa, rng)} / {b}\nx {conn}{tgt}", "n": want, "tgt": tgt, "kind": "var-round"})
     res = C.run_impl([{"op": "exec", "lang": "en", "text": c["text"]} for c in cases])
     back = []
     for c, r in zip(cases, res):
-        l = r.get("lines", [None])[0] if "lines" in r else None
+        l = r.get("lines", [None])[-1] if "lines" in r and r["lines"] else None
         ops = [{"op": "exec", "lang": "en", "text": c["text"]}]
         ctx.seen(c["text"], c["n"] >= 2**31 or c["kind"] != "convert")
         ctx.count("kind:" + c["kind"])
